@@ -25,8 +25,11 @@ RULE = ("product explorer: a case is one call of a public operation described by
         "descriptors).  For every operation of the catalogue and every shape of the scope the generator emits the "
         "well-formed call(s) (variant 'control', must not raise) and one case per way of violating one stated "
         "precondition (shape mismatches incl. permuted / broadcast-compatible / same-count shapes, wrong lengths "
-        "incl. 1 and multiples, every out-of-range / negative / repeated mode position, every non-permutation, every "
-        "count-changing reshape, inconsistent constructor components, inconsistent algorithm options - the latter as "
+        "incl. 0 (no elements at all), 1 and multiples, every out-of-range / negative / repeated mode position, every non-permutation, every "
+        "count-changing reshape, inconsistent constructor components (length domains start at 0 and the shape domain of "
+        "the dense constructor at the empty shape ()), column counts of factor lists as a lattice (every non-constant "
+        "assignment over {1, R, R+1} to the factors that take part, on shapes up to order 4 so that a list with one "
+        "skipped mode still has a first / interior / last position), inconsistent algorithm options - the latter as "
         "a lattice of jointly given options, e.g. per-mode ranks x processing order x truncation scheme; in-place "
         "updates over every non-decreasing mode list incl. repeated entries x every way of being one block short).  "
         "Invariant: a "
@@ -45,26 +48,31 @@ BOUNDS = {
     "quick": "shapes order<=3,size<=3,cells<=12 (35 shapes) for every group; second-operand shapes: every permutation, "
              "+/- a singleton mode, one mode->1, one mode+1, flattened / merged (same count); holders tensor / sptensor "
              "(all cells stored, one stored, none stored) / ktensor rank 2 / ttensor core 2..2 / sumtensor(tensor+ktensor); "
-             "ttv lengths size+1, 1, 2*size per mode, every single/pair mode selection, out-of-range/negative/repeated "
-             "position, wrong multiplicand counts; ttm matrices 1..4 x 1..4 per mode, both transposes; mttkrp lists "
-             "short/long, rows +1 / 1, columns R+1 / 1 per used factor, n = N / -1; ttt: all shape pairs with "
+             "ttv lengths 0, size+1, 1, 2*size per mode, every single/pair mode selection, out-of-range/negative/repeated "
+             "position, wrong multiplicand counts; ttm matrices free extent 1..4 x matching extent 0..4 per mode, both "
+             "transposes; mttkrp on the 2-3 way shapes plus every 4-way shape with size<=2 (16 shapes): lists "
+             "short/long, rows 0 / +1 / 1 / 2*size per used factor, every non-constant column-count vector over "
+             "{1, R, R+1} for the used factors, n = N / -1; ttt: all shape pairs with "
              "cells product <= 36, all single and ordered pairs of contracted modes; permute: all sequences over "
              "{-1..N} of length N plus all N-1 / N+1 extensions; matricization: all (rdims, cdims) sequence pairs over "
              "range(N) of total length <= N, rdims-only up to N+1, -1 / N insertions; reshape targets all shapes "
-             "order<=3,size<=4,cells<=16; constructors: data lengths 1..16, coordinate lists with each coordinate -1 / "
-             "extent, column and count mismatches, Kruskal/Tucker column counts R+1 / 1 per factor, every (rdims | cdims) "
+             "order<=3,size<=4,cells<=16; constructors: dense data lengths 0..16 x shapes incl. () x copy on/off, data arrays "
+             "with one extent 0; coordinate lists with 0 / k coordinates x 0 / k-1 / k / k+1 values, coordinate lists with each coordinate -1 / "
+             "extent, column and count mismatches, Kruskal/Tucker column counts R+1 / 1 per factor, weight "
+             "vectors of length 0 / 1 / R+1 / 2R, every (rdims | cdims) "
              "split x every divisor matrix shape for tenmat/sptenmat, Khatri-Rao 2-3 matrices; algorithms (1 iteration) "
-             "on the 2-3 way shapes with >= 4 cells: every dimorder permutation / 5 non-permutations, guesses with each "
+             "on the 2-3 way shapes with >= 4 cells and on (2,2,2,2): every dimorder permutation / 5 non-permutations, guesses with each "
              "mode +1 / ->1, rank +-1, order +-1, reversed; hosvd / tucker_als option lattice: every per-mode rank "
              "vector over {1, size, size+1} x every dimorder permutation (x sequential on/off for hosvd); import_data "
              "files for shapes cells<=8; in-place: every non-decreasing update list of <= 3 entries over {-1..N-1} "
-             "(entries may repeat) x data exact / -1 / -R / minus one whole block of each listed entry / 1, region "
+             "(entries may repeat) x data exact / -1 / -R / minus one whole block of each listed entry / 1 / 0, region "
              "writes on shapes order<=2,size<=3 "
              "x every region [0,hi) hi<=size+2 x every right-hand-side shape",
     "thorough": "adds every 4-way shape with size<=3,cells<=16 to all shape/mode groups (N=4: 6^4 permute sequences, "
                 "(rdims, cdims) pairs of total length <= N+1 for every N), ttensor operands with an all-ones core, "
                 "sparse second operands with one stored entry, scale factors over every increasing mode pair, ttt "
-                "pairs up to cells product 64, algorithms also on (2,2,2,2),(3,2,1,2), region writes on (2,2,2)",
+                "pairs up to cells product 64, mttkrp on all 50 4-way shapes, algorithms also on (3,2,1,2), region writes "
+                "on (2,2,2)",
 }
 CHUNK = 150
 
@@ -384,10 +392,19 @@ TTV_HOLDERS = ("tensor", "sp_full", "sp_empty", "ktensor", "ttensor", "sumtensor
 
 
 def _wrong_lengths(sn):
-    out = [sn + 1]
+    """wrong lengths for a component that must have length sn: none at all, one more, 1, a multiple"""
+    out = [0, sn + 1]
     if sn > 1:
         out += [1, 2 * sn]
     return out
+
+
+def _shapes_multi(tier):
+    """shapes for operations that skip one mode of a per-mode operand list (mttkrp): the remaining operands have a
+    first / interior / last position only from order 4 on, so 4-way shapes belong to every tier (quick: sizes <= 2)"""
+    if tier == "thorough":
+        return _shapes(tier)
+    return space.shapes(3, 3, 12) + [x for x in space.shapes(4, 2, 16) if len(x) == 4]
 
 
 def g_ttv(tier, seed):
@@ -444,8 +461,10 @@ def g_ttm(tier, seed):
             info = dict(hk=hk, shape=list(s))
             for k in range(n):
                 for tr in (False, True):
-                    for (a, b) in itertools.product((1, 2, 3, 4), repeat=2):
+                    for (a, b) in itertools.product((0, 1, 2, 3, 4), repeat=2):
                         rel = a if tr else b
+                        if (b if tr else a) == 0:
+                            continue   # a result mode of extent 0: no inconsistency, outside this property
                         yield C("ttm", op, "control" if rel == s[k] else "size", r, [A_mat(a, b), k],
                                 {"transpose": tr}, mode=k, mat=[a, b], transpose=tr, **info)
                 sq = A_mat(s[k], s[k])
@@ -480,7 +499,7 @@ MTTKRP_HOLDERS = ("tensor", "sp_full", "sp_empty", "ktensor", "ttensor", "sumten
 
 def g_mttkrp(tier, seed):
     R = 2
-    for s in _shapes(tier):
+    for s in _shapes_multi(tier):
         n = len(s)
         if n < 2:
             continue
@@ -505,11 +524,18 @@ def g_mttkrp(tier, seed):
                     t[i] += 1
                     yield C("mttkrp", op, "shape", r, [A_h("ktensor", t, seed, 1), k], mode=k, pos=i,
                             form="ktensor", **info)
-                    if n >= 3:   # two factors take part: their column counts must agree
-                        for cols in (R + 1, 1):
-                            bad = list(U)
-                            bad[i] = A_mat(s[i], cols, i)
-                            yield C("mttkrp", op, "cols", r, [A_list(bad), k], mode=k, pos=i, cols=cols, **info)
+                if n >= 3:
+                    # two or more factors take part and their column counts must all agree: every assignment of
+                    # column counts over {1, R, R+1} to the participating factors that is not constant (one or
+                    # several deviating factors, at the first / an interior / the last position of the product)
+                    part = [i for i in range(n) if i != k]
+                    for cv in itertools.product((R, R + 1, 1), repeat=len(part)):
+                        if len(set(cv)) == 1:
+                            continue
+                        bad = list(U)
+                        for i, c in zip(part, cv):
+                            bad[i] = A_mat(s[i], c, i)
+                        yield C("mttkrp", op, "cols", r, [A_list(bad), k], mode=k, cols=list(cv), **info)
             yield C("mttkrp", op, "mode_oor", r, [A_list(U), n], mode=n, **info)
             yield C("mttkrp", op, "mode_neg", r, [A_list(U), -1], mode=-1, **info)
 
@@ -704,16 +730,26 @@ def g_modes(tier, seed):
 
 def g_ctor(tier, seed):
     shapes = _shapes(tier)
-    # dense: data size against shape
-    for s in shapes:
-        p = prod(s)
-        for L in range(1, 17):
-            yield C("ctor", "ttb.tensor", "control" if L == p else "size", None, [A_vec(L), A_py(list(s))],
-                    shape=list(s), length=L)
+    # dense: data size against shape.  The length domain starts at 0 (no data at all) and the shape domain at the
+    # empty shape (), whose only consistent content is no data ("Empty tensor cannot contain any elements"); both
+    # storage options (copied / referenced data)
+    for s in [()] + shapes:
+        p = prod(s) if len(s) else 0
+        for L in range(0, 17):
+            for cp in (True, False):
+                yield C("ctor", "ttb.tensor", "control" if L == p else "size", None, [A_vec(L), A_py(list(s))],
+                        {"copy": cp}, shape=list(s), length=L, copy=cp)
         for k, t in mismatches(s):
             if prod(t) != p:
                 yield C("ctor", "ttb.tensor", "size", None, [{"h_data": list(t)}, A_py(list(s))], shape=list(s),
                         shape2=list(t), mk=k)
+        # multi-way data arrays without elements: one mode of the requested shape at extent 0
+        for k in range(len(s)):
+            t = list(s)
+            t[k] = 0
+            for cp in (True, False):
+                yield C("ctor", "ttb.tensor", "size", None, [{"empty": t}, A_py(list(s))], {"copy": cp},
+                        shape=list(s), shape2=t, mk="to0", copy=cp)
     # sparse: coordinate list against shape
     for s in shapes:
         n = len(s)
@@ -741,10 +777,12 @@ def g_ctor(tier, seed):
                 narrow = [r_[:-1] for r_ in base]
                 yield C("ctor", op, "cols", None, [subs_arg(narrow, n - 1), vals_arg(k), A_py(list(s))],
                         cols=n - 1, **info)
-            for m in (k + 1, k - 1):
-                if m >= 1:
-                    yield C("ctor", op, "count", None, [subs_arg(base, n), vals_arg(m), A_py(list(s))], nvals=m,
-                            nsubs=k, **info)
+            for m in sorted({k + 1, k - 1, 0}):   # one more / one less / no values at all
+                yield C("ctor", op, "count", None, [subs_arg(base, n), vals_arg(m), A_py(list(s))], nvals=m,
+                        nsubs=k, **info)
+            # no coordinates at all: consistent with no values only
+            yield C("ctor", op, "control", None, [subs_arg([], n), vals_arg(0), A_py(list(s))], nvals=0, nsubs=0, **info)
+            yield C("ctor", op, "count", None, [subs_arg([], n), vals_arg(k), A_py(list(s))], nvals=k, nsubs=0, **info)
             if op == "ttb.sptensor":
                 yield C("ctor", op, "one_missing", None, [subs_arg(base, n), None, A_py(list(s))], **info)
                 yield C("ctor", op, "one_missing", None, [None, vals_arg(k), A_py(list(s))], **info)
@@ -764,7 +802,7 @@ def g_ctor(tier, seed):
                 bad[i] = A_mat(s[i], cols, i)
                 yield C("ctor", "ttb.ktensor", "cols", None, [A_list(bad)], pos=i, cols=cols, **info)
                 yield C("ctor", "ttb.ktensor", "cols", None, [A_list(bad), A_vec(R)], pos=i, cols=cols, **info)
-        for L in (R + 1, 1, 2 * R):
+        for L in (0, R + 1, 1, 2 * R):
             yield C("ctor", "ttb.ktensor", "count", None, [A_list(fm), A_vec(L)], nweights=L, **info)
         yield C("ctor", "ttb.ktensor", "one_missing", None, [None, A_vec(R)], **info)
         tot = sum(s)
@@ -867,8 +905,9 @@ def _tns(kind, s, body):
 
 def g_algo(tier, seed):
     shapes = [s for s in space.shapes(3, 3, 12) if len(s) >= 2 and prod(s) >= 4]
-    if tier == "thorough":
-        shapes = shapes + [(2, 2, 2, 2), (3, 2, 1, 2)]
+    # one 4-way shape in every tier: tucker_als never reads the guess of the first processed mode, so the guesses that
+    # are checked have a first / interior / last position only from order 4 on
+    shapes = shapes + [(2, 2, 2, 2)] + ([(3, 2, 1, 2)] if tier == "thorough" else [])
     for s in shapes:
         n = len(s)
         # rank 2 needs every mode >= 2 (else the normal equations of the valid control calls are singular)
@@ -1111,8 +1150,8 @@ def g_inplace(tier, seed):
                 # too little data is ill-formed under either reading
                 c["inadm"] = "repeated mode with enough data: acceptance not stated"
             yield c
-            for L in sorted(({need - 1, need - R, 1} | {need - b for b in blocks}) - {0, need}):
-                if L > 0:
+            for L in sorted(({need - 1, need - R, 1, 0} | {need - b for b in blocks}) - {need}):
+                if L >= 0:
                     yield C("inplace", op, "length", r, [A_ints(sel), A_vec(L)], modes=sel, length=L, need=need,
                             repeated=repeated, **info)
             rev = list(reversed(sel))
@@ -1203,6 +1242,8 @@ def _mk(a, seed):
             fm = [np.abs(np.array(space.int_matrix(x, rank, i, seed), dtype=float)).reshape(x, rank) + 1.0
                   for i, x in enumerate(shape)]
             return ttb.ktensor(fm, np.arange(1.0, rank + 1.0))
+        if "empty" in a:       # plain ndarray without elements (some extent is 0)
+            return np.zeros(tuple(a["empty"]), order="F")
         if "arr" in a:
             r, c = a["arr"]
             return np.arange(1.0, r * c + 1.0).reshape((r, c), order="F")
